@@ -79,8 +79,8 @@ Sanitize(name) ==
   LET rel == StripAbs(name)
       can == Canon(J \o rel, <<>>) IN
   IF ~IsPrefix(J, can) THEN <<FALSE, <<>>>>
-  ELSE IF dest = "none" THEN <<TRUE, J \o SelectSeq(rel, LAMBDA c : c # "." /\ c # "")>>   \* the relative name is returned as given: '..' stays
-  ELSE <<TRUE, can>>
+  ELSE IF dest = "none" /\ ~Guarded THEN <<TRUE, J \o SelectSeq(rel, LAMBDA c : c # "." /\ c # "")>>   \* before the repair: the relative name as given, '..' stays
+  ELSE <<TRUE, can>>                                        \* the normalised name, also for the current directory (repaired tree)
 
 (* is_path_valid(fileish.parent.joinpath(dst), path): lexical *)
 LinkTargetValid(out, tgt) ==
